@@ -226,9 +226,10 @@ def packed_marker(src, k):
     return ' /*PACKED*/' if PACKED_RX.match(src, k) else ''
 
 
-def find_enum(relpath, name):
+def find_enum(relpath, name, nth=0):
     src = read_source(relpath)
-    m = re.search(r'\benum\s+' + re.escape(name) + r'\s*\{', src)
+    ms = list(re.finditer(r'\benum\s+' + re.escape(name) + r'\s*\{', src))
+    m = ms[nth] if nth < len(ms) else None
     if not m:
         raise ExtractError('enum %s not found in %s' % (name, relpath))
     k = match_bracket(src, m.end() - 1, '{', '}')
